@@ -297,6 +297,12 @@ func c13World(t *testing.T, r *simcore.Run) any {
 			}
 			curAttemptReq = d
 		case w.srv:
+			if d.Dst.Addr().Unmap() == netip.MustParseAddr(scCliIP).Unmap() {
+				// the client sits in another AS: whatever the server sends it goes back to the
+				// previous hop, never straight to the host named in the SCION header
+				r.Fail("C13", "reply/not-to-previous-hop", "the server sent a datagram straight to the client host %v instead of the previous hop", d.Dst)
+				return
+			}
 			if d.Dst.Port() != scRouterPort {
 				// forwarded to a local port
 				forwardedTo[d.Dst.Port()] = append(forwardedTo[d.Dst.Port()], d)
